@@ -551,7 +551,11 @@ def mem_image(sim, extra_addrs=()):
                         addrs.update(range(base, base + 4))
     out = {}
     for a in addrs:
-        v = int(m.read_byte(a, False)) if cr is not None else int(back.memory_file.get(a, 0))
+        try:
+            v = int(m.read_byte(a, False)) if cr is not None else int(back.memory_file.get(a, 0))
+        except Exception:
+            continue  # an address taken from a (possibly wrong) cache table that the memory rejects: not a value
+        
         if v:
             out[a] = v
     return out
